@@ -878,6 +878,7 @@ type unit struct {
 	pol     policy
 	path    pathSpec
 	triples bool
+	small   bool // reduced alphabet (quick tier: requests the request-level policy refuses anyway)
 	weight  int
 }
 
@@ -887,7 +888,7 @@ func (u unit) batches(f func(ks []kind) bool) {
 	all := kindsFor(u.path)
 	var use, core []kind
 	for _, k := range all {
-		if u.path.Reduced && !k.Small {
+		if (u.path.Reduced || u.small) && !k.Small {
 			continue
 		}
 		use = append(use, k)
@@ -1225,6 +1226,7 @@ func buildUnits(r *runner.Run) []unit {
 				for _, ps := range paths {
 					u := unit{backend: backend, pre: pre, pol: pol, path: ps}
 					u.triples = r.Thorough() && !ps.Reduced && !pol.PairsOnly && requestOK(pol, ps)
+					u.small = r.Quick() && !requestOK(pol, ps)
 					u.weight = u.count()
 					if backend == "sqlite" {
 						u.weight *= 2
@@ -1323,7 +1325,7 @@ func replayCase(worker int, d caseDesc) ([]finding, error) {
 
 func TestCheck(t *testing.T) {
 	r := runner.Start("C15", "exploration")
-	deadline := r.Deadline(170*time.Second, 14*time.Minute) // caps for a loaded machine; ~10 s / ~40 s on 16 idle cores
+	deadline := r.Deadline(240*time.Second, 14*time.Minute) // caps for a heavily loaded machine; about 15 s / 45 s on 16 idle cores
 	c := &collector{findings: map[string]finding{}, tl: newTally()}
 
 	if !probeIngressShape(r) {
@@ -1484,7 +1486,8 @@ func TestCheck(t *testing.T) {
 	r.Set("rule", "complete product backend{memory,sqlite} x pre-state{"+preNames()+"} (max_depth 3) x policy{"+policyNames()+
 		"} x path{global, scoped ep1 (pull), scoped ep2 (2 deliver targets); reduced alphabet on scoped epdir/epoff/eppoff/unknown endpoint} x batches: "+
 		"every item kind alone, every ordered pair of ALL kinds (so every kind at both positions against every other kind), one batch of 4 acceptable items"+
-		runner.Pick(r, "", "; thorough: every ordered triple of the CORE kinds wherever the request-level policy admits the request")+
+		runner.Pick(r, " (quick: where the request-level policy refuses the request whatever its items are, only the reduced 6-kind alphabet is crossed)",
+			"; thorough: every ordered triple of the CORE kinds wherever the request-level policy admits the request")+
 		"; plus per backend body-level probes and 1000/1001-item batches with one unacceptable item at index 0,1,500,998,999"+
 		"; plus the large-batch-vs-capacity family on both backends, global and scoped ep1: max_depth {300,600,1000} x {reject,drop_oldest} x batch size n {256,257,512,700,1000} acceptable items x free capacity "+
 		"{0,1,255,256,257,511,512,700,n-1,n,n+1} (pre-filled with queued rows q0.. oldest first), and in such batches one item whose id is already stored / duplicates item 0 at index 0,255,256,257,n-1 "+
